@@ -20,6 +20,8 @@ from intconv import _cheap
 from mixedops import (RetryDriver, CTYPE, UBSAN_ENV, common_ty, in_range, promote, rat_gcd, run_harness, clip, trunc_frac, kmax)
 
 CMP = ["eq", "ne", "lt", "le", "gt", "ge"]
+FCT = dict(CTYPE, f32="float", f64="double")
+FPREC = {"f32": 24, "f64": 53}
 
 
 def intermediate(r, n):
@@ -57,6 +59,31 @@ LIB_UNITS = {
 }
 
 
+# The library's own temperature units.  `oc`/`on`/`od` = None marks a unit without an origin() member (origin Zero): for the
+# model and the oracle it is described, per instance, as origin 0 expressed in the OTHER unit's origin unit (that is the
+# unit the library's OriginDisplacement then has).
+REAL_UNITS = [
+    {"cpp": "au::Kelvins", "s": (1, 1), "o": None},
+    {"cpp": "au::Celsius", "s": (1, 1), "o": (27315, 1, 100)},
+    {"cpp": "au::Fahrenheit", "s": (5, 9), "o": (45967, 5, 900)},
+    {"cpp": "au::Rankines", "s": (5, 9), "o": None},
+    {"cpp": "au::Milli<au::Kelvins>", "s": (1, 1000), "o": None},
+    {"cpp": "au::Centi<au::Celsius>", "s": (1, 100), "o": (27315, 1, 100)},
+    {"cpp": "au::Kilo<au::Fahrenheit>", "s": (5000, 9), "o": (45967, 5, 900)},
+    {"cpp": "au::Milli<au::Celsius>", "s": (1, 1000), "o": (27315, 1, 100)},
+]
+
+
+def real_pair(a, b):
+    """Describe two library units as (scale, origin) records for the model/oracle."""
+    def one(x, other):
+        o = x["o"] or ((0,) + tuple(other["o"][1:]) if other["o"] else (0, 1, 100))
+        u = U(x["s"][0], x["s"][1], o[0], o[1], o[2])
+        u["cpp"] = x["cpp"]
+        return u
+    return one(a, b), one(b, a)
+
+
 def gen_units(rng, n):
     pool = list(LIB_UNITS.values())
     for _ in range(n):
@@ -78,8 +105,58 @@ REPS_O = [("i32", "i32"), ("i64", "i64"), ("i32", "i64"), ("i16", "i32"), ("i64"
           ("u32", "u64"), ("i16", "i16"), ("i8", "i64")]
 
 
+def directed_instances(rng, tier, units):
+    """Shapes that every run must judge (clause audit): the library's own units, identity and point-equivalent
+    conversions, a negative origin, implicit-rep conversions, point +/- quantity, floating-point reps."""
+    out = []
+    K, C, F = LIB_UNITS["K"], LIB_UNITS["C"], LIB_UNITS["F"]
+    neg = U(1, 2, -54630, 1, 100)                 # origin -546.30
+    c_alt = U(1, 1, 27315, 1, 100)                # Celsius-like with the origin spelled in another unit: point-equivalent twin
+    # the library's real units: explicit conversions and comparisons over ordered pairs
+    pairs = [(a, b) for a in REAL_UNITS for b in REAL_UNITS if a is not b]
+    rng.shuffle(pairs)
+    fixed = [(REAL_UNITS[1], REAL_UNITS[0]), (REAL_UNITS[0], REAL_UNITS[1]), (REAL_UNITS[1], REAL_UNITS[2]), (REAL_UNITS[2], REAL_UNITS[1]),
+             (REAL_UNITS[2], REAL_UNITS[0]), (REAL_UNITS[5], REAL_UNITS[4]), (REAL_UNITS[6], REAL_UNITS[1]), (REAL_UNITS[0], REAL_UNITS[4])]
+    npair = 10 if tier == "quick" else 40
+    for j, (a, b) in enumerate(fixed + [p for p in pairs if p not in fixed][:npair]):
+        u, v = real_pair(a, b)
+        r, n = [("i32", "i32"), ("i64", "i64"), ("i32", "i64"), ("i64", "i32"), ("i16", "i32")][j % 5]
+        out.append({"kind": "E", "r1": r, "r2": n, "u1": u, "u2": v, "why": "library units"})
+        if j < 8:
+            out.append({"kind": "O", "r1": r, "r2": n, "u1": u, "u2": v, "why": "library units"})
+            out.append({"kind": "F", "r1": ["f64", "f32", "i32", "f64"][j % 4], "r2": ["f64", "f32", "f64", "f32"][j % 4], "u1": u, "u2": v, "why": "library units, float"})
+        if j < 4:
+            out.append({"kind": "Q", "r1": "i32", "r2": ["i32", "i64"][j % 2], "u1": u, "u2": v, "why": "library units"})
+    # identity, point-equivalent twin, negative origin
+    for (u, v) in ((C, C), (C, c_alt), (c_alt, C), (neg, K), (K, neg), (neg, F)):
+        out.append({"kind": "E", "r1": "i32", "r2": "i32", "u1": u, "u2": v, "why": "identity/twin/negative origin"})
+        out.append({"kind": "E", "r1": "i16", "r2": "i64", "u1": u, "u2": v, "why": "identity/twin/negative origin"})
+        if origin(u) != origin(v) or scale(u) != scale(v):
+            # (two distinct but point-equivalent unit structs cannot be ordered by the library - "Broken strict total
+            # ordering", the F10 family - so the twin pair is exercised by conversions only)
+            out.append({"kind": "O", "r1": "i32", "r2": "i64", "u1": u, "u2": v, "why": "identity/twin/negative origin"})
+    # implicit-rep conversions to a finer unit (the only ones the policy admits for integers)
+    mK, cC, dC = LIB_UNITS["mK"], LIB_UNITS["cC"], LIB_UNITS["dC"]
+    fine = U(1, 9000, 0, 1, 9000)
+    for (u, v) in ((C, mK), (K, mK), (C, cC), (C, dC), (F, fine), (C, fine), (neg, U(1, 100, 0, 1, 100)), (C, C), (C, c_alt), (mK, K)):
+        for r in ("i32", "i64", "u32", "i16"):
+            out.append({"kind": "M", "r1": r, "r2": r, "u1": u, "u2": v, "why": "implicit conversion"})
+    # point +/- quantity: quantity units with and without an origin of their own (it must be ignored)
+    qunits = [K, C, F, mK, U(3, 2, 12345, 1, 10), fine]
+    for j, (u, v) in enumerate([(C, K), (C, F), (F, C), (K, mK), (mK, C), (neg, qunits[4]), (C, fine), (F, F), (dC, qunits[4]), (cC, K)]):
+        r1, r2 = [("i32", "i32"), ("i64", "i32"), ("i32", "i64"), ("i16", "i32"), ("u32", "u32")][j % 5]
+        out.append({"kind": "Q", "r1": r1, "r2": r2, "u1": u, "u2": v, "why": "point +/- quantity"})
+    # floating-point reps
+    fl = [("f64", "f64"), ("f32", "f32"), ("i32", "f64"), ("f64", "f32"), ("i64", "f64"), ("f32", "f64")]
+    upairs = [(C, K), (C, F), (F, C), (K, C), (mK, F), (neg, C), (C, c_alt), (cC, K)] + [(rng.choice(units), rng.choice(units)) for _ in range(4 if tier == "quick" else 24)]
+    for j, (u, v) in enumerate(upairs):
+        r, n = fl[j % len(fl)]
+        out.append({"kind": "F", "r1": r, "r2": n, "u1": u, "u2": v, "why": "floating rep"})
+    return out
+
+
 def gen_instances(rng, tier):
-    nE, nO = (90, 50) if tier == "quick" else (360, 200)
+    nE, nO = (60, 36) if tier == "quick" else (360, 200)
     units = gen_units(rng, 10 if tier == "quick" else 30)
     lib = list(LIB_UNITS.values())
     out = []
@@ -89,19 +166,20 @@ def gen_instances(rng, tier):
             u, v = rng.sample(lib, 2)
         else:
             u, v = rng.choice(units), rng.choice(units)
-        out.append({"kind": "E", "r1": r, "r2": n, "u1": u, "u2": v})
+        out.append({"kind": "E", "r1": r, "r2": n, "u1": u, "u2": v, "why": "grid"})
     for k in range(nO):
         r1, r2 = REPS_O[k % len(REPS_O)]
         if k < 2 * len(REPS_O):
             u, v = rng.sample(lib, 2)
         else:
             u, v = rng.choice(units), rng.choice(units)
-        if u == v:
-            continue
-        out.append({"kind": "O", "r1": r1, "r2": r2, "u1": u, "u2": v})
+        if u == v or (scale(u) == scale(v) and origin(u) == origin(v)):
+            continue        # identical, or distinct point-equivalent structs (the library cannot order those: F10 family)
+        out.append({"kind": "O", "r1": r1, "r2": r2, "u1": u, "u2": v, "why": "grid"})
+    out = directed_instances(rng, tier, units) + out
     res, seen = [], set()
     for ins in out:
-        key = (ins["kind"], ins["r1"], ins["r2"], ukey(ins["u1"]), ukey(ins["u2"]))
+        key = (ins["kind"], ins["r1"], ins["r2"], ukey(ins["u1"]), ukey(ins["u2"]), ins["u1"].get("cpp"), ins["u2"].get("cpp"))
         if key in seen:
             continue
         seen.add(key)
@@ -220,12 +298,80 @@ HARNESS_COMMON = r'''
 #include "au/quantity_point.hh"
 #include "au/unit_of_measure.hh"
 #include "au/magnitude.hh"
+#include "au/prefix.hh"
+#include "au/units/kelvins.hh"
+#include "au/units/celsius.hh"
+#include "au/units/fahrenheit.hh"
 typedef __int128 i128;
 struct VBase : au::UnitImpl<au::Temperature> {};
 #define VUNIT(N, D) decltype(VBase{} * (au::mag<N>() / au::mag<D>()))
 #define PUNIT(NAME, SN, SD, OC, ON, OD) \
     struct NAME : VUNIT(SN, SD) { static constexpr auto origin() { return au::make_quantity<VUNIT(ON, OD)>(OC); } };
-struct Entry { int id; int kind; int ok; i128 (*op)(int, i128, i128); void (*info)(char*, size_t); };
+struct Entry { int id; int kind; int ok; i128 (*op)(int, i128, i128); void (*info)(char*, size_t);
+               long double (*fop)(int, long double); };
+static long double no_fop(int, long double) { return 0; }
+// implicit-rep conversion p.in(u) / p.as(u)
+template <class R, class U1, class U2, bool Ok> struct MInst {
+    static i128 op(int, i128, i128) { return 0; }
+    static void info(char* b, size_t n) { snprintf(b, n, "-"); }
+};
+template <class R, class U1, class U2> struct MInst<R, U1, U2, true> {
+    static i128 op(int w, i128 a, i128) {
+        const auto p = au::make_quantity_point<U1>(static_cast<R>(a));
+        switch (w) {
+            case 30: return static_cast<i128>(p.in(U2{}));
+            case 31: return static_cast<i128>(p.as(U2{}).in(U2{}));
+            case 32: return static_cast<i128>(p.as(au::QuantityPointMaker<U2>{}).in(au::QuantityPointMaker<U2>{}));
+        }
+        return -99;
+    }
+    static void info(char* b, size_t n) {
+        using T = decltype(au::make_quantity_point<U1>(R{}).in(U2{}));
+        snprintf(b, n, "ret_is_r=%d", int(std::is_same<T, R>::value));
+    }
+};
+// point +/- quantity (U1: the point's unit, U2: the quantity's unit)
+template <class R1, class R2, class U1, class U2, bool Ok> struct QInst {
+    static i128 op(int, i128, i128) { return 0; }
+    static void info(char* b, size_t n) { snprintf(b, n, "-"); }
+};
+template <class R1, class R2, class U1, class U2> struct QInst<R1, R2, U1, U2, true> {
+    using Sum = decltype(au::make_quantity_point<U1>(R1{}) + au::make_quantity<U2>(R2{}));
+    using RU = typename Sum::Unit;
+    static i128 op(int w, i128 a, i128 b) {
+        const auto p = au::make_quantity_point<U1>(static_cast<R1>(a));
+        const auto q = au::make_quantity<U2>(static_cast<R2>(b));
+        switch (w) {
+            case 40: return static_cast<i128>((p + q).in(RU{}));
+            case 41: return static_cast<i128>((q + p).in(RU{}));
+            case 42: return static_cast<i128>((p - q).in(RU{}));
+        }
+        return -99;
+    }
+    static void info(char* b, size_t n) {
+        using S2 = decltype(au::make_quantity<U2>(R2{}) + au::make_quantity_point<U1>(R1{}));
+        using D = decltype(au::make_quantity_point<U1>(R1{}) - au::make_quantity<U2>(R2{}));
+        using T = typename Sum::Rep;
+        snprintf(b, n, "k1=%llu k2=%llu same_origin=%d same_types=%d rep=%d,%d",
+                 (unsigned long long)au::get_value<uint64_t>(au::unit_ratio(U1{}, RU{})),
+                 (unsigned long long)au::get_value<uint64_t>(au::unit_ratio(U2{}, RU{})),
+                 int(au::origin_displacement(U1{}, RU{}) == au::ZERO),
+                 int(std::is_same<S2, Sum>::value && std::is_same<D, Sum>::value), int(sizeof(T) * 8), int(std::numeric_limits<T>::is_signed));
+    }
+};
+// explicit-rep conversion with a floating-point rep on either side
+template <class R, class N, class U1, class U2> struct FInst {
+    static i128 op(int, i128, i128) { return 0; }
+    static long double fop(int w, long double a) {
+        const auto p = au::make_quantity_point<U1>(static_cast<R>(a));
+        switch (w) {
+            case 50: return static_cast<long double>(p.template coerce_in<N>(U2{}));
+            case 51: return static_cast<long double>(p.template as<N>(U2{}).in(U2{}));
+        }
+        return -99;
+    }
+    static void info(char* b, size_t n) { snprintf(b, n, "float"); }
+};
 template <class R, class N, class U1, class U2, bool Ok> struct EInst {
     static i128 op(int, i128, i128) { return 0; }
     static void info(char* b, size_t n) { snprintf(b, n, "-"); }
@@ -237,6 +383,8 @@ template <class R, class N, class U1, class U2> struct EInst<R, N, U1, U2, true>
             case 0: return static_cast<i128>(p.template coerce_in<N>(U2{}));
             case 1: return static_cast<i128>(p.template coerce_as<N>(U2{}).in(U2{}));
             case 2: return static_cast<i128>(p.template in<N>(U2{}));
+            case 3: return static_cast<i128>(p.template as<N>(U2{}).in(U2{}));
+            case 4: return static_cast<i128>(p.template coerce_in<N>(au::QuantityPointMaker<U2>{}));
         }
         return -99;
     }
@@ -272,6 +420,9 @@ template <class R1, class R2, class U1, class U2, bool Ok3> struct OInst<R1, R2,
             case 16: return static_cast<i128>((p1 - p2).in(CP{}));
             case 17: return p2 > p1;
             case 18: return p2 == p1;
+            case 20: return static_cast<i128>((p2 - p1).in(CP{}));
+            case 21: return p2 < p1;
+            case 22: return p2 != p1;
             case 19: return OCmp3<R1, R2, U1, U2, Ok3>::go(p1, p2);
         }
         return -99;
@@ -284,8 +435,11 @@ template <class R1, class R2, class U1, class U2, bool Ok3> struct OInst<R1, R2,
                  int(au::origin_displacement(CP{}, U1{}) == au::ZERO), int(sizeof(D) * 8), int(std::numeric_limits<D>::is_signed));
     }
 };
-#define EENTRY(ID, R, N, U1, U2, OK) { ID, 0, OK, &EInst<R, N, U1, U2, OK>::op, &EInst<R, N, U1, U2, OK>::info }
-#define OENTRY(ID, R1, R2, U1, U2, OK, OK3) { ID, 1, OK, &OInst<R1, R2, U1, U2, OK, OK3>::op, &OInst<R1, R2, U1, U2, OK, OK3>::info }
+#define EENTRY(ID, R, N, U1, U2, OK) { ID, 0, OK, &EInst<R, N, U1, U2, OK>::op, &EInst<R, N, U1, U2, OK>::info, &no_fop }
+#define OENTRY(ID, R1, R2, U1, U2, OK, OK3) { ID, 1, OK, &OInst<R1, R2, U1, U2, OK, OK3>::op, &OInst<R1, R2, U1, U2, OK, OK3>::info, &no_fop }
+#define MENTRY(ID, R, U1, U2, OK) { ID, 2, OK, &MInst<R, U1, U2, OK>::op, &MInst<R, U1, U2, OK>::info, &no_fop }
+#define QENTRY(ID, R1, R2, U1, U2, OK) { ID, 3, OK, &QInst<R1, R2, U1, U2, OK>::op, &QInst<R1, R2, U1, U2, OK>::info, &no_fop }
+#define FENTRY(ID, R, N, U1, U2) { ID, 4, 1, &FInst<R, N, U1, U2>::op, &FInst<R, N, U1, U2>::info, &FInst<R, N, U1, U2>::fop }
 '''
 
 HARNESS_MAIN = r'''
@@ -334,6 +488,13 @@ int main() {
             long ub0 = g_ub; i128 r = 0;
             const bool okc = call_op(e, w, p128(a[0]), p128(a[1]), &r);
             printf("P %d %d val=%s ub=%ld\n", id, w, okc ? s128(r).c_str() : "trap", g_ub - ub0);
+        } else if (cmd == 'F') {
+            int id, w; long double x;
+            if (sscanf(line + 1, "%d %d %La", &id, &w, &x) != 3) { puts("bad"); continue; }
+            const Entry* e = find(id); if (!e) { puts("bad"); continue; }
+            long ub0 = g_ub;
+            const long double r = e->fop(w, x);
+            printf("F %d %d val=%La ub=%ld\n", id, w, r, g_ub - ub0);
         } else if (cmd == 'S') {
             // S id lo hi kA B0 dv N D  calc(lo hi) P(lo hi) c2(lo hi) pc2(lo hi) n(lo hi): exhaustive explicit conversions
             int id; char a[18][64];
@@ -370,6 +531,9 @@ int main() {
 
 
 def uname(u, names):
+    if u.get("cpp"):
+        names[ukey(u) + " " + u["cpp"]] = u["cpp"]
+        return u["cpp"]           # a unit of the library itself
     # the name is a function of the content: the same struct name must mean the same unit in every TU (ODR)
     k = ukey(u)
     if k not in names:
@@ -387,10 +551,18 @@ def write_table(path, name, ch, gates):
             ok = "true" if gates[ins["id"]] else "false"
             if ins["kind"] == "E":
                 body.append(f"  EENTRY({ins['id']}, {CTYPE[ins['r1']]}, {CTYPE[ins['r2']]}, {n1}, {n2}, {ok}),\n")
+            elif ins["kind"] == "M":
+                body.append(f"  MENTRY({ins['id']}, {CTYPE[ins['r1']]}, {n1}, {n2}, {ok}),\n")
+            elif ins["kind"] == "Q":
+                body.append(f"  QENTRY({ins['id']}, {CTYPE[ins['r1']]}, {CTYPE[ins['r2']]}, {n1}, {n2}, {ok}),\n")
+            elif ins["kind"] == "F":
+                body.append(f"  FENTRY({ins['id']}, {FCT[ins['r1']]}, {FCT[ins['r2']]}, {n1}, {n2}),\n")
             else:
                 ok3 = "true" if gates.get(("cmp3", ins["id"])) else "false"
                 body.append(f"  OENTRY({ins['id']}, {CTYPE[ins['r1']]}, {CTYPE[ins['r2']]}, {n1}, {n2}, {ok}, {ok3}),\n")
         for k, nm in names.items():
+            if nm.startswith("au::"):
+                continue
             sn, sd, oc, on, od = k.split()
             f.write(f"PUNIT({nm}, {sn}ull, {sd}ull, {oc}, {on}ull, {od}ull)\n")
         f.write(f"extern const Entry {name}[] = {{\n" + "".join(body) + "};\n")
@@ -407,8 +579,8 @@ def write_harness(wd, insts, gates, nchunks=16):
     return {"tables": tables, "gates": gates}
 
 
-def write_main(wd, live):
-    p = os.path.join(wd, "main.cc")
+def write_main(wd, live, tag=""):
+    p = os.path.join(wd, f"main{tag}.cc")
     with open(p, "w") as f:
         f.write(HARNESS_COMMON)
         for (_, name, ch) in live:
@@ -420,11 +592,11 @@ def write_main(wd, live):
     return p
 
 
-def build_harness(wd, files, compiler, std, tag):
+def build_harness(wd, files, compiler, std, tag, san=True):
     def comp(t):
         src = t[0]
         obj = src[:-3] + f".{tag}.o"
-        rc, out = cxx(src, obj, compiler=compiler, std=std, extra=["-c"])
+        rc, out = cxx(src, obj, compiler=compiler, std=std, extra=["-c"], san=san)
         return (t, obj, rc, out)
     res = pmap(comp, files["tables"])
     live, objs, failures, dead, retry = [], [], [], [], []
@@ -434,7 +606,7 @@ def build_harness(wd, files, compiler, std, tag):
             objs.append(obj)
         else:
             for ins in t[2]:
-                p = os.path.join(wd, f"inst{ins['id']}.cc")
+                p = os.path.join(wd, f"inst{ins['id']}_{tag}.cc")
                 write_table(p, f"tableI{ins['id']}", [ins], files["gates"])
                 retry.append((p, f"tableI{ins['id']}", [ins]))
     for t, obj, rc, out in pmap(comp, retry):
@@ -446,14 +618,14 @@ def build_harness(wd, files, compiler, std, tag):
             failures.append({"src": t[0], "instance": t[2][0], "output": out[-3000:]})
     if not live:
         return None, failures or [{"src": "all", "output": "no table compiles"}], dead
-    mainp = write_main(wd, live)
+    mainp = write_main(wd, live, tag)
     t, obj, rc, out = comp((mainp, "main", []))
     if rc != 0:
         return None, [{"src": mainp, "output": out[-4000:]}], dead
     objs.append(obj)
     exe = os.path.join(wd, f"harness_{tag}")
     from vlib import link_cmd
-    rc, out, err = run(link_cmd(compiler, objs, exe))
+    rc, out, err = run(link_cmd(compiler, objs, exe) if san else [compiler] + objs + ["-o", exe])
     if rc != 0:
         return None, [{"src": "link", "output": (out + err)[-4000:]}], dead
     return exe, failures, dead
@@ -478,6 +650,15 @@ FORBIDDEN = [
     ("unary-minus-point", "auto r = -p1; (void)r;"),
     ("point+=point", "auto q = p1; q += p2; (void)q;"),
     ("implicit-C-to-K-int", "au::QuantityPoint<PU1, int> z = p1; (void)z;"),
+    ("point+scalar", "auto r = p1 + 1; (void)r;"),
+    ("scalar+point", "auto r = 1 + p1; (void)r;"),
+    ("point*quantity", "auto r = p1 * au::make_quantity<PU0>(1); (void)r;"),
+    ("quantity*point", "auto r = au::make_quantity<PU0>(1) * p1; (void)r;"),
+    ("point/point", "auto r = p1 / p2; (void)r;"),
+    ("make-point-from-quantity", "auto r = au::make_quantity_point<PU0>(au::make_quantity<PU0>(1)); (void)r;"),
+    ("make-point-from-point", "auto r = au::make_quantity_point<PU0>(p1); (void)r;"),
+    ("quantity-in-point-slot-compare", "bool b = (p1 < au::make_quantity<PU0>(1)); (void)b;"),
+    ("point-assign-ZERO", "auto q = p1; q = au::ZERO; (void)q;"),
 ]
 ALLOWED = [
     ("point-point", "auto r = p1 - p2; (void)r;"),
@@ -500,7 +681,152 @@ def probe_src(stmt):
 # ------------------------------------------------------------------------------------------------
 
 def base_rec(ins, cfg):
-    return {"kind_inst": ins["kind"], "r1": ins["r1"], "r2": ins["r2"], "u1": ukey(ins["u1"]), "u2": ukey(ins["u2"]), "config": cfg}
+    rec = {"kind_inst": ins["kind"], "r1": ins["r1"], "r2": ins["r2"], "u1": ukey(ins["u1"]), "u2": ukey(ins["u2"]), "config": cfg}
+    for side in ("1", "2"):
+        if ins["u" + side].get("cpp"):
+            rec["cpp" + side] = ins["u" + side]["cpp"]
+    return rec
+
+
+def m_values(rng, ins, count):
+    r = ins["r1"]
+    lo, hi = ty_lo(r), ty_hi(r)
+    f = scale(ins["u1"]) / scale(ins["u2"])
+    pts = {lo, lo + 1, -1, 0, 1, 2, hi - 1, hi}
+    if f >= 1:
+        k = int(f)
+        off = int((origin(ins["u1"]) - origin(ins["u2"])) / scale(ins["u2"])) if scale(ins["u2"]) else 0
+        for lim in (lo, hi):
+            for dl in (-1, 0, 1):
+                pts.add((lim - off) // k + dl)
+                pts.add(lim // k + dl)
+    for _ in range(count):
+        b = rng.randrange(1, INT_TYPES[r][1])
+        pts.add(rng.randrange(-(1 << b), (1 << b) + 1))
+    return sorted(p for p in pts if lo <= p <= hi)
+
+
+def q_values(rng, ins, count):
+    r1, r2 = ins["r1"], ins["r2"]
+    pts = set()
+    for a in (ty_lo(r1), -1, 0, 1, ty_hi(r1)):
+        for b in (ty_lo(r2), -1, 0, 1, ty_hi(r2)):
+            pts.add((clip(r1, a), clip(r2, b)))
+    for _ in range(count):
+        b1, b2 = rng.randrange(1, min(INT_TYPES[r1][1], 28)), rng.randrange(1, min(INT_TYPES[r2][1], 28))
+        v1 = rng.randrange(-(1 << b1), (1 << b1) + 1)
+        v2 = rng.randrange(-(1 << b2), (1 << b2) + 1)
+        pts.add((clip(r1, v1), clip(r2, v2)))
+    return sorted(pts)
+
+
+def f_values(rng, ins, count):
+    import struct
+    r = ins["r1"]
+    if r in INT_TYPES:
+        pts = [0, 1, -1, 20, -40, 100, 273, 1 << 20, -(1 << 20)] + [rng.randrange(-(1 << 24), 1 << 24) for _ in range(count)]
+        return [clip(r, p) for p in pts]
+    pts = [0.0, -0.0, 1.0, -40.0, 20.0, 100.0, 273.15, 1e-30, -1e-30, 1e30, float("inf"), float("-inf"), float("nan"), 2.0 ** -149 if r == "f32" else 5e-324]
+    for _ in range(count):
+        z = rng.random()
+        pts.append(float(rng.randrange(-3000, 3001)) if z < 0.4 else (rng.uniform(-3000, 3000) if z < 0.8 else rng.uniform(-1, 1) * 10.0 ** rng.randrange(-8, 12)))
+    if r == "f32":
+        pts = [struct.unpack("f", struct.pack("f", p))[0] for p in pts]
+    return pts
+
+
+def check_implicit(ins, w, v, r, a, model_line, base, violations, stats, distinct):
+    """p.in(u') / p.as(u') (implicit rep): exact affine value, no truncation, whenever every intermediate is representable."""
+    tgt = {"scale": scale(ins["u2"]), "origin": origin(ins["u2"]), "unit": ins["u2"]}
+    steps, x = implicit_steps(ins["r1"], ins["u1"], tgt, v)
+    scope = steps_ok(steps)
+    exact = (v * scale(ins["u1"]) + origin(ins["u1"]) - origin(ins["u2"])) / scale(ins["u2"])
+    stats["points"] += 1
+    if model_line is not None:
+        mm = kv(model_line)
+        if mm["val"] != "ub" and mm["val"] != r["val"] and (scope or mm["wrapped"] == "0"):
+            violations.append({"what": f"model and implementation differ for the implicit conversion at {v}", "class": "corr-implicit", "no_input": True,
+                               "broken": "correspondence: c09imp", "rec": dict(base, kind="corr", op=w, v1=v, v2=0, model=model_line, impl=a)})
+        if scope and (mm["wrapped"] != "0" or mm["narrowed"] != "0" or mm["val"] == "ub"):
+            violations.append({"what": "oracle scope disagrees with the model's flags (implicit conversion)", "class": "corr-scope-m", "no_input": True,
+                               "broken": "correspondence: scope of the implicit conversion", "rec": dict(base, kind="corr", op=w, v1=v, v2=0, model=model_line)})
+    if not scope:
+        stats["skipped_out_of_scope"] += 1
+        return
+    stats["points_in_scope"] += 1
+    stats["implicit_in_scope"] += 1
+    distinct.add(("M", ins["id"]))
+    if Fraction(x) != exact or exact.denominator != 1 or r["val"] == "trap" or int(r["val"]) != exact.numerator or r["ub"] != "0":
+        violations.append({"what": f"implicit conversion (form {w}) of point {v} [{ukey(ins['u1'])}] {ins['r1']} to [{ukey(ins['u2'])}] returns {r['val']} "
+                                   f"(sanitizer reports {r['ub']}), exact affine value {exact}", "class": f"oracle-implicit-{ins['r1']}",
+                           "rec": dict(base, kind="oracle", op=w, v1=v, v2=0, got=r["val"], want=str(exact))})
+
+
+def rep_from_bits(s):
+    b, sg = s.split(",")
+    return ("i" if sg == "1" else "u") + b
+
+
+def check_shift(ins, w, v1, v2, r, info, base, violations, stats, distinct):
+    """point +/- quantity: the result is the point shifted by exactly the quantity, in the result's unit (whose scale and
+    origin are judged from the I line).  Scope: the scaled operands and the result fit the common rep (conservative)."""
+    stats["points"] += 1
+    if info is None:
+        return
+    k1, k2 = int(info["k1"]), int(info["k2"])
+    Rc = common_ty(ins["r1"], ins["r2"])
+    Rres = rep_from_bits(info["rep"])
+    a, b = v1 * k1, v2 * k2
+    want = a + b if w in (40, 41) else a - b
+    scope = (in_range(Rc, v1) and in_range(Rc, v2) and in_range(Rc, a) and in_range(Rc, b) and in_range(Rc, want) and in_range(Rres, want))
+    if not scope:
+        stats["skipped_out_of_scope"] += 1
+        return
+    # independent statement: position(result) = position(p) +/- value(q)
+    ru = scale(ins["u1"]) / k1
+    pos = v1 * scale(ins["u1"]) + origin(ins["u1"])
+    exact = (pos + (v2 * scale(ins["u2"]) if w in (40, 41) else -v2 * scale(ins["u2"])) - origin(ins["u1"])) / ru
+    stats["points_in_scope"] += 1
+    stats["shift_in_scope"] += 1
+    distinct.add(("Q", ins["id"]))
+    if exact != want or r["val"] == "trap" or int(r["val"]) != want or r["ub"] != "0":
+        opn = {40: "p + q", 41: "q + p", 42: "p - q"}[w]
+        violations.append({"what": f"{opn} with p = {v1} [{ukey(ins['u1'])}] {ins['r1']}, q = {v2} [scale {ins['u2']['sn']}/{ins['u2']['sd']}] {ins['r2']} returns "
+                                   f"{r['val']} (sanitizer reports {r['ub']}) in the result unit, exact shifted position gives {exact}",
+                           "class": f"oracle-shift-{w}-{ins['r1']}-{ins['r2']}", "rec": dict(base, kind="oracle", op=w, v1=v1, v2=v2, got=r["val"], want=str(exact))})
+
+
+def check_point_float(ins, w, v, r, base, violations, stats, distinct):
+    """Explicit conversion with a floating rep: within a few units of roundoff of the terms of the affine map."""
+    from mixedops import hex_to_fraction
+    import math as _m
+    stats["float_evals"] += 1
+    got = hex_to_fraction(r["val"])
+    rec = dict(base, kind="oracle", op=w, v1=float(v).hex() if isinstance(v, float) else v, v2=0, got=r["val"], flt=True)
+    fl = [x for x in (ins["r1"], ins["r2"]) if x in FPREC]
+    if isinstance(v, float) and (_m.isnan(v) or _m.isinf(v)):
+        want = "nan" if _m.isnan(v) else ("inf" if v > 0 else "-inf")
+        if ins["r2"] in FPREC and got != want:
+            violations.append({"what": f"floating conversion of a non-finite point {v!r}: answered {r['val']}, expected {want}",
+                               "class": "oracle-float-special", "rec": dict(rec, want=want)})
+        return
+    if ins["r2"] not in FPREC:
+        return
+    s1, s2 = scale(ins["u1"]), scale(ins["u2"])
+    d = origin(ins["u1"]) - origin(ins["u2"])
+    exact = (Fraction(v) * s1 + d) / s2
+    u = Fraction(1, 1 << min(FPREC[x] for x in fl))
+    tol = 8 * u * (abs(Fraction(v)) * s1 + abs(d)) / s2 + Fraction(1, 1 << (149 if ins["r2"] == "f32" else 1074))   # + underflow
+    if isinstance(got, str):
+        violations.append({"what": f"floating conversion: non-finite answer {r['val']} for the finite point {v!r}", "class": "oracle-float-convert", "rec": rec})
+        return
+    err = abs(got - exact)
+    if tol > 0:
+        stats["float_max_err_u"] = max(stats["float_max_err_u"], float(err / (tol / 8)))
+    distinct.add(("F", ins["id"]))
+    if err > tol or r["ub"] != "0":
+        violations.append({"what": f"floating conversion {ins['r1']}->{ins['r2']} of point {v!r} [{ukey(ins['u1'])}] to [{ukey(ins['u2'])}] returns {float(got)!r}, exact affine "
+                                   f"value {float(exact)!r}: off by more than 8 units of roundoff of the terms", "class": "oracle-float-convert", "rec": dict(rec, want=float(exact))})
 
 
 def e_values(rng, ins, plan, count):
@@ -555,10 +881,27 @@ def explore(prop, tier, seed, rng, wd):
     for i in insts:
         if i["kind"] == "E":
             greq.append(f"c09in {i['r1']} {i['r2']} {ukey(i['u1'])} {ukey(i['u2'])} 0")
+        elif i["kind"] == "M":
+            greq.append(f"c09imp {i['r1']} {ukey(i['u1'])} {ukey(i['u2'])} 0")
+        elif i["kind"] in ("Q", "F"):
+            greq.append("c09cpu 1 1 0 1 2 1 1 0 1 2")        # placeholder: no model gate for these kinds
         else:
             greq.append(f"c09op eq {i['r1']} {i['r2']} {ukey(i['u1'])} {ukey(i['u2'])} 0 0")
     gans = [kv(a) for a in drv.ask(greq)]
     gates = {i["id"]: a.get("compiles") == "1" for i, a in zip(insts, gans)}
+    for i in insts:
+        if i["kind"] == "F":
+            gates[i["id"]] = True
+    # point +/- quantity is not modelled: the compile gate is the compiler's verdict (one -fsyntax-only probe per instance)
+    qi = [i for i in insts if i["kind"] == "Q"]
+
+    def qprobe(ins):
+        pth = os.path.join(wd, f"qprobe{ins['id']}.cc")
+        write_table(pth, "tq", [ins], {ins["id"]: True})
+        rc, out = cxx(pth, None, san=False, syntax_only=True)
+        return rc == 0
+    for i, okq in zip(qi, pmap(qprobe, qi)):
+        gates[i["id"]] = okq
     oi = [i for i in insts if i["kind"] == "O"]
     g3 = drv.ask([f"c09op cmp3 {i['r1']} {i['r2']} {ukey(i['u1'])} {ukey(i['u2'])} 0 0" for i in oi])
     for i, a in zip(oi, g3):
@@ -566,7 +909,10 @@ def explore(prop, tier, seed, rng, wd):
     files = write_harness(wd, insts, gates)
     # "exact" = clang++-14 with the exact-count UBSan handlers (vlib.SAN_EXACT): the full runtimes report a source
     # location once per process, so per-input `ub` counts are only reliable in this build
-    configs = [("g++", "c++14", "g14"), (("exact", "c++20", "x20") if seed % 2 == 0 else ("exact", "c++17", "x17"))]
+    # quick: g++ C++14 with ASan/UBSan, the exact-count build under C++20 (so that <=> is judged in EVERY run), and one further
+    # compiler x standard combination without sanitizers and without the exhaustive sweeps (points only), rotating with the seed
+    third = [("g++", "c++20", "pg20"), ("clang++-14", "c++17", "pc17"), ("g++", "c++17", "pg17"), ("clang++-14", "c++14", "pc14")][seed % 4]
+    configs = [("g++", "c++14", "g14"), ("exact", "c++20", "x20"), third]
     if tier == "thorough":
         configs = [("g++", "c++14", "g14"), ("g++", "c++20", "g20"), ("clang++-14", "c++14", "c14"), ("clang++-14", "c++17", "c17"),
                    ("clang++-14", "c++20", "c20"), ("exact", "c++14", "x14")]
@@ -585,11 +931,25 @@ def explore(prop, tier, seed, rng, wd):
     npts = 60 if tier == "quick" else 200
     evals = {i["id"]: e_values(rng, i, plans[i["id"]], npts) for i in insts if i["kind"] == "E" and gates[i["id"]]}
     ovals = {i["id"]: o_values(rng, i, npts) for i in insts if i["kind"] == "O" and gates[i["id"]]}
+    mvals = {i["id"]: m_values(rng, i, npts // 2) for i in insts if i["kind"] == "M" and gates[i["id"]]}
+    qvals = {i["id"]: q_values(rng, i, npts // 2) for i in insts if i["kind"] == "Q" and gates[i["id"]]}
+    fvals = {i["id"]: f_values(rng, i, npts // 3) for i in insts if i["kind"] == "F"}
+    stats.update({"M_instances": sum(1 for i in insts if i["kind"] == "M"), "Q_instances": len(qi), "Q_compiling": sum(1 for i in qi if gates[i["id"]]),
+                  "F_instances": sum(1 for i in insts if i["kind"] == "F"), "implicit_in_scope": 0, "shift_in_scope": 0, "float_evals": 0,
+                  "float_max_err_u": 0.0, "classes": {}})
+    for i in insts:
+        stats["classes"][i["kind"] + ":" + i.get("why", "")] = stats["classes"].get(i["kind"] + ":" + i.get("why", ""), 0) + 1
+    qinfo = {}
     samples, distinct = [], set()
     half = 1 << 15
+    from concurrent.futures import ThreadPoolExecutor
+    pool = ThreadPoolExecutor(max_workers=len(configs))
+    builds = {tag: pool.submit(build_harness, wd, files, compiler, std, tag, not tag.startswith("p")) for (compiler, std, tag) in configs}
     for (compiler, std, tag) in configs:
         cfg = f"{compiler} -std={std}"
-        exe, fails, dead = build_harness(wd, files, compiler, std, tag)
+        # the exhaustive +-2^15 sweeps run in one configuration per quick run (the exact-count build); all in thorough
+        points_only = tag.startswith("p") or (tier == "quick" and compiler != "exact")
+        exe, fails, dead = builds[tag].result()
         for fl in (fails or [])[:3]:
             violations.append({"what": f"harness does not compile under {cfg}: a conversion/operation the model's gate admits is rejected "
                                        f"by the headers" + (f" [{len(dead)} instance(s) dropped]" if dead else ""),
@@ -609,7 +969,7 @@ def explore(prop, tier, seed, rng, wd):
             meta.append(("I", i["id"]))
             if i["kind"] == "E":
                 plan = plans[i["id"]]
-                if plan:
+                if plan and not points_only:
                     r = i["r1"]
                     centres = [0, plan["B0"] // plan["kA"]]
                     for c in centres:
@@ -619,12 +979,27 @@ def explore(prop, tier, seed, rng, wd):
                         lines.append(f"S {i['id']} {lo} {hi} {plan['kA']} {plan['B0']} {plan['dv']} {plan['N']} {plan['D']} 0 {rng_s}")
                         meta.append(("S", i["id"], lo, hi))
                 for v in evals[i["id"]]:
-                    for w in (0, 1, 2):
+                    for w in (0, 1, 2, 3, 4):
                         lines.append(f"P {i['id']} {w} {v} 0")
                         meta.append(("PE", i["id"], w, v))
+            elif i["kind"] == "M":
+                for v in mvals[i["id"]]:
+                    for w in (30, 31, 32):
+                        lines.append(f"P {i['id']} {w} {v} 0")
+                        meta.append(("PM", i["id"], w, v))
+            elif i["kind"] == "Q":
+                for (v1, v2) in qvals[i["id"]]:
+                    for w in (40, 41, 42):
+                        lines.append(f"P {i['id']} {w} {v1} {v2}")
+                        meta.append(("PQ", i["id"], w, v1, v2))
+            elif i["kind"] == "F":
+                for v in fvals[i["id"]]:
+                    for w in (50, 51):
+                        lines.append(f"F {i['id']} {w} {float(v).hex()}")
+                        meta.append(("PF", i["id"], w, v))
             else:
                 for (v1, v2) in ovals[i["id"]]:
-                    for w in range(10, 20 if (cpp20 and gates.get(("cmp3", i["id"]))) else 19):
+                    for w in [x for x in range(10, 23) if x != 19 or (cpp20 and gates.get(("cmp3", i["id"])))]:
                         lines.append(f"P {i['id']} {w} {v1} {v2}")
                         meta.append(("PO", i["id"], w, v1, v2))
         answers, errs = run_harness(exe, lines)
@@ -642,6 +1017,10 @@ def explore(prop, tier, seed, rng, wd):
                 opn = {10: "eq", 11: "ne", 12: "lt", 13: "le", 14: "gt", 15: "ge", 16: "sub", 19: "cmp3"}[m[2]]
                 midx[k] = len(mreq)
                 mreq.append(f"c09op {opn} {i['r1']} {i['r2']} {ukey(i['u1'])} {ukey(i['u2'])} {m[3]} {m[4]}")
+            elif m[0] == "PM" and m[2] == 30:
+                i = by_id[m[1]]
+                midx[k] = len(mreq)
+                mreq.append(f"c09imp {i['r1']} {ukey(i['u1'])} {ukey(i['u2'])} {m[3]}")
             elif m[0] == "I" and by_id[m[1]]["kind"] == "O":
                 i = by_id[m[1]]
                 midx[k] = len(mreq)
@@ -653,7 +1032,26 @@ def explore(prop, tier, seed, rng, wd):
             ins = by_id[m[1]]
             base = base_rec(ins, cfg)
             r = kv(a)
-            if m[0] == "I":
+            if m[0] == "I" and ins["kind"] in ("M", "F"):
+                if ins["kind"] == "M" and r.get("ret_is_r") != "1":
+                    violations.append({"what": "p.in(unit) does not return Rep", "class": "oracle-rettype", "rec": dict(base, kind="oracle", observable="rettype")})
+            elif m[0] == "I" and ins["kind"] == "Q":
+                qinfo[ins["id"]] = r
+                sp, sq = scale(ins["u1"]), scale(ins["u2"])
+                g = rat_gcd(sp, sq)
+                want = (sp / g, sq / g, 1, 1)
+                got = (Fraction(int(r["k1"])), Fraction(int(r["k2"])), int(r["same_origin"]), int(r["same_types"]))
+                if got != want:
+                    violations.append({"what": f"point +/- quantity: result unit has ratios/origin/types {got}, expected {want} (gcd scale, the point's origin, "
+                                               f"one result type for p+q, q+p, p-q)", "class": "oracle-shift-unit",
+                                       "rec": dict(base, kind="oracle", observable="shift-unit", got=str(got), want=str(want))})
+            elif m[0] == "PM":
+                check_implicit(ins, m[2], m[3], r, a, mans[midx[k]] if k in midx else None, base, violations, stats, distinct)
+            elif m[0] == "PQ":
+                check_shift(ins, m[2], m[3], m[4], r, qinfo.get(ins["id"]), base, violations, stats, distinct)
+            elif m[0] == "PF":
+                check_point_float(ins, m[2], m[3], r, base, violations, stats, distinct)
+            elif m[0] == "I":
                 if ins["kind"] == "E":
                     if r.get("ret_is_n") != "1":
                         violations.append({"what": "coerce_in<N> does not return N", "class": "oracle-rettype", "rec": dict(base, kind="oracle", observable="rettype")})
@@ -738,9 +1136,10 @@ def explore(prop, tier, seed, rng, wd):
                 if not scope:
                     stats["skipped_out_of_scope"] += 1
                     continue
-                want = {10: p1 == p2, 11: p1 != p2, 12: p1 < p2, 13: p1 <= p2, 14: p1 > p2, 15: p1 >= p2, 17: p1 < p2, 18: p1 == p2}.get(w)
-                if w == 16:
-                    d = (p1 - p2) / cpus[ins["id"]]["scale"]
+                want = {10: p1 == p2, 11: p1 != p2, 12: p1 < p2, 13: p1 <= p2, 14: p1 > p2, 15: p1 >= p2, 17: p1 < p2, 18: p1 == p2,
+                        21: p2 < p1, 22: p1 != p2}.get(w)
+                if w in (16, 20):
+                    d = ((p1 - p2) if w == 16 else (p2 - p1)) / cpus[ins["id"]]["scale"]
                     if d.denominator != 1 or not in_range(common_ty(ins["r1"], ins["r2"]), d.numerator):
                         stats["skipped_out_of_scope"] += 1
                         continue
@@ -854,6 +1253,9 @@ def replay(prop, rec):
     drv = RetryDriver()
     f1, f2 = [int(x) for x in r["u1"].split()], [int(x) for x in r["u2"].split()]
     ins = {"id": 0, "kind": r["kind_inst"], "r1": r["r1"], "r2": r["r2"], "u1": U(*f1), "u2": U(*f2)}
+    for side in ("1", "2"):
+        if r.get("cpp" + side):
+            ins["u" + side]["cpp"] = r["cpp" + side]
     files = write_harness(wd, [ins], {0: True, ("cmp3", 0): str(r.get("op")) == "19"}, nchunks=1)
     cfg = r.get("config", "g++ -std=c++14").split()
     exe, fails, _ = build_harness(wd, files, cfg[0], cfg[1].replace("-std=", ""), "rp")
@@ -861,6 +1263,37 @@ def replay(prop, rec):
         print("replay: does not build:", fails[0]["output"][-1200:])
         print(f"VIOLATION property={prop} replay={rec.get('_path', '<given>')} no-failing-input-found")
         return 1
+    if ins["kind"] in ("M", "Q", "F"):
+        viol, st, dist = [], {"points": 0, "points_in_scope": 0, "implicit_in_scope": 0, "shift_in_scope": 0, "skipped_out_of_scope": 0,
+                              "float_evals": 0, "float_max_err_u": 0.0}, set()
+        base = base_rec(ins, " ".join(cfg))
+        w = int(r["op"])
+        if ins["kind"] == "F":
+            v = float.fromhex(r["v1"]) if isinstance(r["v1"], str) else r["v1"]
+            ans, _ = run_harness(exe, [f"F 0 {w} {float(v).hex()}"], shards=1)
+            print("impl  :", ans[0])
+            check_point_float(ins, w, v, kv(ans[0]), base, viol, st, dist)
+        elif ins["kind"] == "M":
+            v = int(r["v1"])
+            ans, _ = run_harness(exe, [f"P 0 {w} {v} 0"], shards=1)
+            ml = drv.ask([f"c09imp {ins['r1']} {ukey(ins['u1'])} {ukey(ins['u2'])} {v}"])[0]
+            print("impl  :", ans[0]); print("model :", ml)
+            check_implicit(ins, w, v, kv(ans[0]), ans[0], ml, base, viol, st, dist)
+        else:
+            v1, v2 = int(r["v1"]), int(r["v2"])
+            ans, _ = run_harness(exe, ["I 0", f"P 0 {w} {v1} {v2}"], shards=1)
+            print("impl  :", ans[0], "|", ans[1])
+            check_shift(ins, w, v1, v2, kv(ans[1]), kv(ans[0]), base, viol, st, dist)
+        for x in viol:
+            print("oracle:", x["what"][:300])
+        if any(not x.get("no_input") for x in viol):
+            print(f"VIOLATION property={prop} replay={rec.get('_path', '<given>')}")
+            return 1
+        if viol:
+            print(f"VIOLATION property={prop} replay={rec.get('_path', '<given>')} no-failing-input-found")
+            return 1
+        print("replay: property holds on this case")
+        return 0
     v1, v2 = int(r["v1"]), int(r.get("v2", 0))
     if ins["kind"] == "E":
         plan = explicit_plan(ins["r1"], ins["r2"], ins["u1"], ins["u2"])
@@ -876,8 +1309,9 @@ def replay(prop, rec):
         scope = steps_ok(s1) and steps_ok(s2)
         p1 = v1 * scale(ins["u1"]) + origin(ins["u1"])
         p2 = v2 * scale(ins["u2"]) + origin(ins["u2"])
-        want = {10: p1 == p2, 11: p1 != p2, 12: p1 < p2, 13: p1 <= p2, 14: p1 > p2, 15: p1 >= p2, 17: p1 < p2, 18: p1 == p2}.get(w)
-        want = int(want) if want is not None else (int((p1 - p2) / cpu["scale"]) if w == 16 else (0 if p1 < p2 else (1 if p1 == p2 else 2)))
+        want = {10: p1 == p2, 11: p1 != p2, 12: p1 < p2, 13: p1 <= p2, 14: p1 > p2, 15: p1 >= p2, 17: p1 < p2, 18: p1 == p2,
+                21: p2 < p1, 22: p1 != p2}.get(w)
+        want = int(want) if want is not None else (int((p1 - p2) / cpu["scale"]) if w == 16 else (int((p2 - p1) / cpu["scale"]) if w == 20 else (0 if p1 < p2 else (1 if p1 == p2 else 2))))
         ans, _ = run_harness(exe, [f"P 0 {w} {v1} {v2}"], shards=1)
         opn = {10: "eq", 11: "ne", 12: "lt", 13: "le", 14: "gt", 15: "ge", 16: "sub"}.get(w, "eq")
         m = drv.ask([f"c09op {opn} {ins['r1']} {ins['r2']} {ukey(ins['u1'])} {ukey(ins['u2'])} {v1} {v2}"])[0]
